@@ -136,14 +136,17 @@ Proof.
       destruct (find _ (table_of (upload D D_eqb hash h force es))) as [[i b]|] eqn:Et.
       * apply find_some in Et as [Hint Hb]. cbn [fst snd] in Hb. apply andb_true_iff in Hb as [Hi Hk].
         destruct b as [| |tms2]; try discriminate.
-        unfold table_of in Hint. apply in_map_iff in Hint as [b' [[= <- <-] _]].
+        unfold table_of in Hint. apply in_map_iff in Hint as [b' [Hb' _]].
+        injection Hb' as Hi' Hb'. subst b' i.
         apply D_eqb_spec in Hi. assert (tms2 = tms) as -> by (apply hash_tree_inj; congruence).
         rewrite Hwf. cbn [negb]. rewrite Hroot in *. rewrite Hden, Hsorted. cbn [negb].
         rewrite Hrd. destruct (c_tad c || force); cbn [option_eqb]; [now rewrite D_eqb_refl'|reflexivity].
-      * exfalso. apply (find_none _ _ Et (hash (BTree tms), BTree tms)).
-        -- unfold table_of. apply in_map_iff. eauto.
-        -- cbn [fst snd]. rewrite Htd, D_eqb_refl'. discriminate.
-    + exfalso. apply (find_none _ _ Ef (od_path o, loc) Hin). cbn [fst]. rewrite String.eqb_refl. discriminate.
+      * exfalso. assert (In (hash (BTree tms), BTree tms) (table_of (upload D D_eqb hash h force es))) as Hint.
+        { unfold table_of. apply in_map_iff. eauto. }
+        pose proof (find_none _ _ Et _ Hint) as Hfn. cbn [fst snd] in Hfn.
+        rewrite Htd, D_eqb_refl' in Hfn. discriminate.
+    + exfalso. pose proof (find_none _ _ Ef (od_path o, loc) Hin) as Hfn. cbn [fst] in Hfn.
+      rewrite String.eqb_refl in Hfn. discriminate.
 Qed.
 
 (* ---- P of the rejection and of the parents --------------------------------------- *)
